@@ -118,8 +118,14 @@ def run_ola(c):
   if c["norm"] != "default":
     kw["normalize"] = c["norm"]
   norm = True if c["norm"] == "default" else c["norm"]
+  stored = None
   if c["wkind"] != "none":
     kw["wnd"] = mk_window(c["wkind"], wv)
+    if c["wkind"] == "list":
+      stored = kw["wnd"]
+    elif c["wkind"] == "callable" and c["hop_default"]:
+      stored = list(wv)                      # a window function that hands out its own stored list
+      kw["wnd"] = lambda n, stored=stored: stored
   if detect and c["bkind"] == "iters":
     bkind = "lists"          # size detection needs len(block)
   else:
@@ -139,7 +145,12 @@ def run_ola(c):
     if not (g == e):
       raise Violation("out[%d] = %r, expected %r (m=%d size=%d hop=%d window=%s %r normalize=%r detect=%r) got=%r"
                       % (n, g, e, m, size, hop, c["wkind"], wv, c["norm"], detect, got))
+  if stored is not None and stored != list(wv):
+    raise Violation("overlap_add.list modified the caller's window list: %r is now %r (normalize=%r)"
+                    % (list(wv), stored, c["norm"]))
   labels = ["window:" + c["wkind"], "blocks:" + bkind, "normalize:%s" % c["norm"]]
+  if stored is not None:
+    labels.append("caller keeps the window list")
   if detect:
     labels.append("detected size")
   if m == 0:
@@ -291,9 +302,11 @@ def run_stft(c):
     log.append("func")
     return blk
 
+  EXTRA = ("alpha", "offset", "length", "_x", "gain", "ola", "a")
+
   def rec_ola(blks, **kw):
     ola_kw.append(dict(kw))
-    return overlap_add.list(blks, **kw)
+    return overlap_add.list(blks, **{k: v for k, v in kw.items() if k not in EXTRA})
 
   def t_rev(blk, n):
     log.append("transform")
@@ -333,6 +346,11 @@ def run_stft(c):
     opts["hop"] = hop
   expect_ola = {"size": size, "hop": opts.get("hop"), "normalize": False}
   opts["ola_normalize"] = False
+  # options of a user-supplied overlap-add strategy: the prefix is removed, nothing else
+  for i, name in enumerate(EXTRA):
+    if c["split"][(i + 2) % 8] and c["split"][(i + 5) % 8]:
+      opts["ola_" + name] = i
+      expect_ola[name] = i
   if c["window_at"] == "analysis":
     opts["wnd"] = mk_window(c["wkind"], w)
   elif c["window_at"] == "ola":
@@ -350,14 +368,25 @@ def run_stft(c):
     build["ola_normalize"] = True
     call["ola_normalize"] = False
   style = c["style"]
+  def sibling(partial):
+    # something else derived first from the same partial, with keywords of its own, must leave the
+    # partial as it was (its keywords must not leak into what is derived next)
+    partial(lambda blk: blk, wnd=[Q(9)] * size, hop=size, ola_normalize=True, ola_wnd=[Q(7)] * size)
+    partial(wnd=[Q(5)] * size)
   if style == "direct":
     proc = stft(func, **build)
   elif style == "decorator":
-    proc = stft(**build)(func)
+    deco = stft(**build)
+    if c["split"][4]:
+      sibling(deco)
+    proc = deco(func)
   elif style == "partial":
     half = {k: build[k] for k in sorted(build)[::2]}
     other = {k: build[k] for k in build if k not in half}
-    proc = stft(**half)(**other)(func)
+    first = stft(**half)
+    if c["split"][4]:
+      sibling(first)
+    proc = first(**other)(func)
   else:
     # later settings override earlier ones
     proc = stft(size=size + 5, **{k: v for k, v in build.items() if k != "size"})(func, size=size) \
